@@ -119,3 +119,8 @@ mod test {
         insta::assert_snapshot!(result.unwrap_err().to_string(), @"unexpected field 'prop' at line 1 column 1");
     }
 }
+
+#[cfg(feature = "verif")]
+pub(crate) fn verif_process_number(number: &mut NumberExpression, code: &str) {
+    Processor::new(code).process_number_expression(number)
+}
